@@ -1307,7 +1307,7 @@ Proof.
     + intros h I. rewrite F, cnt_app.
       rewrite (cnt_nodup_in (h_idx h) (idxs (outs (c_remote c) ++ outs (c_pending c)))).
       * lia.
-      * apply in_idxs. now exists h.
+      * apply in_idxs. exists h. split; [exact I|reflexivity].
     + rewrite R. subst r'. cbn [r_anchor]. destruct (r_anchor r); split; reflexivity.
 Qed.
 
@@ -1349,7 +1349,7 @@ Lemma w_refutes :
     cnt 7 (f_fail ef1 ++ f_fail ef2) = O /\
     res_idxs out_kind (f_resolvers ef2) = [].
 Proof.
-  do 4 eexists.
-  split; [reflexivity|]. split; [reflexivity|]. split; [reflexivity|].
-  repeat split; reflexivity.
+  exists (mkArb SCommitmentBroadcasted 0 None), (mkEff [] [] [] 1 0),
+         (mkArb SWaitingFullResolution 1 (Some w_res)), (mkEff [] [] [(RCommit, 0)] 0 0).
+  vm_compute. repeat split; reflexivity.
 Qed.
